@@ -454,6 +454,20 @@ func c15R5(w *World, r *Report) {
 				okc = false
 			}
 		}
+		// a failure must not be reported after part of the commit took effect:
+		// merge reads any Update error as "nothing committed" and removes its
+		// outputs — with some sources already unlinked that loses their rows
+		partial := ""
+		for _, ret := range fl.Returns() {
+			f := fl.Before(ret)
+			if len(ret.Results) == 0 {
+				continue
+			}
+			if !allNil(retVals(w, ret, len(ret.Results)-1)) && f.May("call:Remove") {
+				partial = w.instrPos(ret)
+			}
+		}
+		r.check(partial == "", rule, name+":error-after-partial-removal", w.pos(fn.Pos()), "no error is returned once a source may have been unlinked", name+" can return an error (at "+partial+") after it may already have unlinked some sources: merge treats an Update error as 'nothing committed' and tombstones the merge outputs, which are by then the only copy of those sources' rows")
 		r.check(okc, rule, name+":no-dir-sync", w.pos(fn.Pos()), "removals followed by a directory fsync", name+" unlinks published files without fsyncing the directory afterwards: after a power loss the removed sources reappear next to the merged output (every row twice)")
 	}
 }
